@@ -24,11 +24,12 @@ TOK = ["http://", "https://", "ftp://", "javascript:", "www.", "a.com", "/p", "/
        "/abcdefghijkl", "?q=1&r=2", '"', "'", "<", ">", "&", "&amp;", "(", ")", ".", " ",
        "\u00e9", F25, F28, F31]
 
-PERMITTED = [None, ["http", "https", "ftp"], ["http", "https", "javascript"]]   # None = default
+PERMITTED = [None, ["http", "https", "ftp"], ["http", "https", "javascript"], ["http"]]   # None = default;
+# the last one makes "https" a scheme that merely *starts with* a permitted one
 EXTRA = ["", ' rel="nofollow" ', "callable"]
 EXTRA_OUT = ["", ' rel="nofollow"', ' class="c"']
 EXTRA_ATTRS = [[], [("rel", "nofollow")], [("class", "c")]]
-OPTS_ALL = list(itertools.product((False, True), (False, True), (0, 1, 2), (0, 1, 2)))
+OPTS_ALL = list(itertools.product((False, True), (False, True), tuple(range(len(PERMITTED))), (0, 1, 2)))
 OPTS_NOEXTRA = [o for o in OPTS_ALL if o[3] == 0]
 
 B_PROTO = ["http://", "https://", "www.", "ftp://"]
